@@ -39,6 +39,8 @@ Expected(e) ==
       [] e.op = "ew3" -> Lift3(e.code, e.a, e.b, e.c)
       [] e.op = "map" -> MapExp(e)
       [] e.op = "ctor_v" -> CtorExp(e)
+      \* two vectors collected one after the other from one iterator of 2n+1 items: items 1..n, n+1..2n, one item left
+      [] e.op = "ctor_chunks" -> << [i \in 1 .. e.n |-> e.input[i]], [i \in 1 .. e.n |-> e.input[e.n + i]], <<e.input[2 * e.n + 1]>> >>
       [] e.op = "conv" -> Conv(e.how, e.m, e.input, e.s)
       [] e.op = "mat_resize" -> ResizeT(e.a, e.m)
       [] e.op = "swz" -> Swizzle(e.how, e.input, e.s)
@@ -75,6 +77,7 @@ Ew2 == Step("ew2")
 Ew3 == Step("ew3")
 MapA == Step("map")
 CtorV == Step("ctor_v")
+CtorChunks == Step("ctor_chunks")
 CmpA == Step("cmp")
 MinMaxA == Step("minmax")
 ReduceIA == Step("reduce_i")
@@ -90,7 +93,7 @@ Shuf == Step("shuf")
 FullA == Step("full")
 Invert == Step("invert")
 PixelA == Step("pixel")
-Next == PixelA \/ ConvA \/ MatResize \/ Swz \/ Named \/ Shuf \/ FullA \/ Invert \/ Ew1 \/ Ew2 \/ Ew3 \/ MapA \/ CtorV \/ CmpA \/ MinMaxA \/ ReduceIA \/ ArithIA \/ Fold \/ FoldV \/ Real1A
+Next == CtorChunks \/ PixelA \/ ConvA \/ MatResize \/ Swz \/ Named \/ Shuf \/ FullA \/ Invert \/ Ew1 \/ Ew2 \/ Ew3 \/ MapA \/ CtorV \/ CmpA \/ MinMaxA \/ ReduceIA \/ ArithIA \/ Fold \/ FoldV \/ Real1A
 Accepted == IF TLCGet("stats").diameter - 1 = Len(Rec) THEN TRUE
             ELSE PrintT(ToJson([tag |-> "REJECTED_AT", l |-> TLCGet("stats").diameter])) /\ FALSE
 =============================================================================
